@@ -33,9 +33,11 @@ pub fn noise_frames(run: &Run<'_>, p: usize) -> Vec<(String, Vec<u8>, bool)> {
     let is_slave = matches!(run.node.port_ref(p).port_ds().port_state, PS::Slave);
     let p2p = run.cfg.node.ports[p].p2p;
     // wrong domain / sdoId / version, malformed
-    out.push(("announce-other-domain".into(), announce_variant(a, |m| m.hdr.domain = 1), false));
-    out.push(("announce-other-major-sdo".into(), announce_variant(a, |m| m.hdr.major_sdo = 1), false));
-    out.push(("announce-other-minor-sdo".into(), announce_variant(a, |m| m.hdr.minor_sdo = 1), false));
+    // (relative to the instance's own domain and sdoId)
+    let (my_dom, my_sdo) = (run.cfg.node.domain, run.cfg.node.sdo);
+    out.push(("announce-other-domain".into(), announce_variant(a, |m| m.hdr.domain = my_dom.wrapping_add(1)), false));
+    out.push(("announce-other-major-sdo".into(), announce_variant(a, |m| m.hdr.major_sdo = ((my_sdo >> 8) as u8 ^ 1) & 0x0f), false));
+    out.push(("announce-other-minor-sdo".into(), announce_variant(a, |m| m.hdr.minor_sdo = (my_sdo as u8) ^ 1), false));
     out.push(("announce-version-1".into(), announce_variant(a, |m| m.hdr.version = 1), false));
     out.push(("announce-version-3".into(), announce_variant(a, |m| m.hdr.version = 3), false));
     {
@@ -124,7 +126,7 @@ pub fn noise_frames(run: &Run<'_>, p: usize) -> Vec<(String, Vec<u8>, bool)> {
             out.push((format!("followup-sibling-port-{k}"), sib.follow_up(cur, ts, 0), false));
             out.push((format!("delayresp-sibling-port-{k}"), sib.delay_resp(dr_seq, ts, 0, &own), false));
         }
-        for (what, dom, sdo, ver) in [("other-domain", 1u8, 0u16, 2u8), ("other-sdo", 0, 0x100, 2), ("other-minor-sdo", 0, 0x001, 2), ("version-1", 0, 0, 1)] {
+        for (what, dom, sdo, ver) in [("other-domain", my_dom.wrapping_add(1), my_sdo, 2u8), ("other-sdo", my_dom, my_sdo ^ 0x100, 2), ("other-minor-sdo", my_dom, my_sdo ^ 0x001, 2), ("version-1", my_dom, my_sdo, 1)] {
             let mut f = peer.clone();
             f.domain = dom;
             f.sdo = sdo;
@@ -274,6 +276,12 @@ pub fn run(tier: Tier) -> i32 {
     let depths: std::collections::HashMap<String, (usize, usize)> = built.iter().map(|(s, d)| (s.name.clone(), *d)).collect();
     let systems: Vec<_> = built.into_iter().map(|(s, _)| s).collect();
     explore_all(&mut rep, &systems, |s| tier.pick(depths[&s.name].0, depths[&s.name].1), tier.pick(12.0, 300.0));
+    let mut sweep: Vec<_> = build("C07", &mon, crate::c08::sweep_defs(true), false).into_iter().map(|(s, _)| s).collect();
+    if tier == Tier::Quick {
+        // quick: the end-to-end layouts only (every state is probed with ~100 frames)
+        sweep.retain(|s| !s.name.contains("p2p"));
+    }
+    explore_more(&mut rep, "sweep", &sweep, tier.pick(2, 3), tier.pick(3.0, 60.0));
     rep.cover("noise_frame_classes", json!(32));
     rep.assume("one-step unwinding on the complete canonical state (all private fields of every port and of the instance state, host timers, rng draw count) implies trace equivalence because the code is deterministic");
     rep.finish()
@@ -281,6 +289,7 @@ pub fn run(tier: Tier) -> i32 {
 
 pub fn replay(r: &serde_json::Value) {
     let mon = NoiseMon;
-    let systems: Vec<_> = systems(&mon).into_iter().map(|(s, _)| s).collect();
+    let mut systems: Vec<_> = systems(&mon).into_iter().map(|(s, _)| s).collect();
+    systems.extend(build("C07", &mon, crate::c08::sweep_defs(true), false).into_iter().map(|(s, _)| s));
     replay_world(&systems, r);
 }
